@@ -158,6 +158,62 @@ BIDI = ["‏", "‫", "‮", "⁧"]
 ODD = ["​", "﻿", " ", "　", "０", "́", "‍", "\x00", "\U0010ffff", "\x7f", " ", "\x0b", "\x0c"]
 
 
+ESC_LETTERS = [chr(c) for c in range(33, 127)] + ["é", "ü", "α", "日", "ｘ", "\n", " ", "\t"]
+HEX_BOUNDARY = ["00", "7f", "80", "ff", "d7ff", "d800", "dbff", "dc00", "dfff", "e000", "ffff", "10ffff", "110000",
+                "0", "7", "f", "F", "g", "D800", "DFFF", "0041", "41", "1F600", "{41}", "{d800}", "_1", "+1"]
+
+
+def gen_escape(rng):
+    """a backslash, ANY printable ASCII (or a few other) escape letter, then a hex-digit run of length 0..8 built from
+    boundary values: a newly accepted escape letter or digit count shows up as a model/lexer disagreement"""
+    letter = rng.choice(ESC_LETTERS) if rng.random() < 0.7 else rng.choice("xuUNnotrb0123")
+    run = rng.choice(HEX_BOUNDARY) if rng.random() < 0.85 else ""
+    k = rng.random()
+    if k < 0.25:
+        run = run[:rng.randint(0, len(run))]
+    elif k < 0.4:
+        run = (run + rng.choice(HEX_BOUNDARY))[:8]
+    elif k < 0.5:
+        run = run.upper()
+    return "\\" + letter + run
+
+
+def gen_escape_probe(rng):
+    """one escape inside a single-line / multi-line / interpolated string, at the end of input, before the closing
+    quote, before a line break or before ordinary text"""
+    opener, closer = rng.choice([('"', '"'), ('"', '"'), ('"""', '"""'), ("'''", "'''"), ('"a\\{x}', '"'), ('"""a\\{x}', '"""'),
+                                 ('"\\{y}b\\{x}', '"'), ("'''\n  \\{x} ", "'''")])
+    prefix = rng.choice(["", "", "a", "ab ", "é", "\\n", " "])
+    esc = gen_escape(rng)
+    k = rng.random()
+    if k < 0.3:
+        tail = ""                                   # end of input
+    elif k < 0.6:
+        tail = closer + rng.choice(["", " + y", "\n", ".f"])
+    elif k < 0.8:
+        tail = "\n" + rng.choice(["", "z" + closer, closer + "\n", "  w"])
+    else:
+        tail = rng.choice(["q", " ", "}", "\\{z}", gen_escape(rng)]) + rng.choice([closer, "", closer + " # c\n"])
+    head = rng.choice(["", "", "x = ", "print! ", "f(", "    "])
+    return head + opener + prefix + esc + tail
+
+
+def gen_bracket_blank_lines(rng):
+    """runs of consecutive line breaks (and blank / comment lines) inside (...), [...], {...}"""
+    o, c = rng.choice(["()", "[]", "{}"])
+    parts = [rng.choice(["x = ", "f", "", "print! "]) + o]
+    for _ in range(rng.randint(1, 4)):
+        parts.append("\n" * rng.choice([0, 1, 2, 2, 3, 5]))
+        if rng.random() < 0.3:
+            parts.append(rng.choice(["  ", "# c\n", " \n", "\\\n", "#[ a\n ]#"]))
+            parts.append("\n" * rng.choice([0, 1, 2]))
+        parts.append(rng.choice(["1", "a", '"s"', "(\n\nb)", "y: 2", "-1", "'r'"]) + rng.choice([",", ", ", "", ";"]))
+    parts.append("\n" * rng.choice([0, 1, 2, 4]))
+    parts.append(c)
+    parts.append(rng.choice(["", "\n", "\nz = 1\n", " + w\n\nv"]))
+    return "".join(parts)
+
+
 def gen_str(rng, depth):
     """a single-line string literal, possibly with escapes and interpolation"""
     parts = ['"']
@@ -165,8 +221,10 @@ def gen_str(rng, depth):
         k = rng.random()
         if k < 0.45:
             parts.append(rng.choice(PLAIN))
-        elif k < 0.8:
+        elif k < 0.74:
             parts.append(rng.choice(ESCAPES[:9]))
+        elif k < 0.8:
+            parts.append(gen_escape(rng))
         elif depth < 2:
             parts.append("\\{" + gen_expr(rng, depth + 1) + "}")
         else:
@@ -184,8 +242,10 @@ def gen_mstr(rng, depth):
             parts.append(rng.choice(PLAIN + ['"', '""', "''"]))
         elif k < 0.55:
             parts.append("\n" + " " * rng.randint(0, 6))
-        elif k < 0.75:
+        elif k < 0.72:
             parts.append(rng.choice(ESCAPES[:7]))
+        elif k < 0.76:
+            parts.append(gen_escape(rng))
         elif k < 0.8:
             parts.append("\\\n")
         elif depth < 2:
@@ -213,10 +273,10 @@ def gen_atom(rng, depth):
     if depth < 2:
         o, c = rng.choice(["()", "[]", "{}"])
         inner = [gen_expr(rng, depth + 1) for _ in range(rng.randint(0, 2))]
-        sep = rng.choice([", ", ",", ",\n    ", ", \n", "; "])
+        sep = rng.choice([", ", ",", ",\n    ", ", \n", "; ", ",\n\n", ",\n\n\n  "])
         body = sep.join(inner)
         if rng.random() < 0.25:
-            body = "\n" + " " * rng.randint(0, 8) + body + rng.choice(["\n", "\n  ", ""])
+            body = rng.choice(["\n", "\n\n", "\n\n\n"]) + " " * rng.randint(0, 8) + body + rng.choice(["\n", "\n  ", "", "\n\n"])
         if rng.random() < 0.1:
             body += " # c\n"
         return o + body + c
@@ -478,6 +538,10 @@ def run(ctx):
         add(gen_noise(ctx.rng), "noise")
     for _ in range(ctx.scale(400, 6000)):
         add(gen_indent_walk(ctx.rng), "indent-walk")
+    for _ in range(ctx.scale(500, 8000)):
+        add(gen_escape_probe(ctx.rng), "escape-probe")
+    for _ in range(ctx.scale(250, 4000)):
+        add(gen_bracket_blank_lines(ctx.rng), "bracket-blank-lines")
     if ctx.thorough:
         k = 0
         for p in progs[:1000]:
@@ -506,7 +570,7 @@ def run(ctx):
                 if i[0] == "E":
                     ctx.count("err:" + (ERR_NAMES[i[1]] if 0 <= i[1] < len(ERR_NAMES) else "unclassified"))
         nontrivial = (nerr == 0 and ntok >= 5) or (nerr >= 1 and ntok >= 2)
-        ctx.case(t, nontrivial=nontrivial, sample={"origin": o, "text": t[:200], "stream": show_items(im)[:12]} if o in ("generated", "malformed", "indent-walk") and len(t) < 200 else None)
+        ctx.case(t, nontrivial=nontrivial, sample={"origin": o, "text": t[:200], "stream": show_items(im)[:12]} if o in ("generated", "malformed", "indent-walk", "escape-probe", "bracket-blank-lines") and len(t) < 200 else None)
         if v[0] != 0:
             failing.append((t, o, im, mo, v))
         elif im != mo:
@@ -558,9 +622,23 @@ def run(ctx):
             if failing:
                 report_failing(ctx, m, failing)
                 return
-        # search harder for an input that fails the property itself
-        extra = [mutate(ctx.rng, ctx.rng.choice(progs)) for _ in range(ctx.scale(3000, 20000))] + \
-                [gen_program(ctx.rng) for _ in range(ctx.scale(1500, 10000))]
+        # search harder for an input that fails the property itself, biased toward the disagreements:
+        # every escape letter occurring in a (shrunk) disagreeing input with all boundary hex runs in all string contexts,
+        # and local mutations of the disagreeing inputs
+        extra = []
+        letters = sorted({mm.group(1) for t in cand for mm in re.finditer(r"\\\\(.)", t, re.S)})[:12]
+        for l in letters:
+            for run in HEX_BOUNDARY + [h.upper() for h in HEX_BOUNDARY[:13]]:
+                for opener, closer in [('"', '"'), ('"""', '"""'), ("'''", "'''"), ('"a\\{x}', '"')]:
+                    for tail in ["", closer, "\n", "q" + closer]:
+                        extra.append("s = " + opener + "\\" + l + run + tail)
+        for t in cand[:60]:
+            for _ in range(20):
+                extra.append(mutate(ctx.rng, t))
+        extra += [mutate(ctx.rng, ctx.rng.choice(progs)) for _ in range(ctx.scale(3000, 20000))] + \
+                 [gen_program(ctx.rng) for _ in range(ctx.scale(1500, 10000))] + \
+                 [gen_escape_probe(ctx.rng) for _ in range(ctx.scale(2000, 10000))] + \
+                 [gen_bracket_blank_lines(ctx.rng) for _ in range(ctx.scale(1000, 5000))]
         ei = m.run_impl(extra)
         ev = m.judge(extra, ei)
         failing = [(t, "search", im, None, v) for t, im, v in zip(extra, ei, ev) if v[0] != 0]
